@@ -110,6 +110,8 @@ def label_history(rng):
             # the same sentence under one rule table and then under the other: what a table says about a production must
             # not depend on what another table said before
             first = rng.choice(["ptb", "negra"])
+            if rng.random() < 0.7:
+                t = rule_tree(rng)
             calls.append({"op": "transform", "name": "mark_heads_by_rules", "tree": proto.enc_tree(t), "sid": 1, "params": {"mark_heads_preset": first}})
             if rng.random() < 0.7:
                 calls.append({"op": "transform", "name": "mark_heads_by_rules", "tree": proto.enc_tree(t), "sid": 1,
@@ -179,6 +181,41 @@ def mk_history(rng):
                 params["keepall"] = True
             calls.append({"op": "transform", "name": "ptb_delete_traces", "tree": proto.enc_tree(t), "sid": 1, "params": params})
     return calls
+
+
+_RULE_CATS = None
+
+
+def rule_tree(rng):
+    """a sentence whose productions have a parent that BOTH head-rule tables list (S, VP, PP) and children whose categories
+    are listed by one table or the other, so that the two presets disagree about the head: what one table said about a
+    parent label must not be what the other table is asked later in the same process (added after C18-x19)"""
+    global _RULE_CATS
+    from impl import mk_leaf, mk_node
+    if _RULE_CATS is None:
+        pinned = json.load(open(os.path.join(os.path.dirname(os.path.dirname(os.path.abspath(__file__))), "pinned_head_rules.json")))
+        _RULE_CATS = {}
+        for parent in ("s", "vp", "pp"):
+            cats = set()
+            for tbl in (pinned["negra"], pinned["ptb"]):
+                for (_, p) in tbl.get(parent, []):
+                    cats.update(p.split())
+            _RULE_CATS[parent] = sorted(c.upper() for c in cats)
+    n = [0]
+
+    def leaf(pos):
+        n[0] += 1
+        return mk_leaf(n[0], pos, rng.choice(["a", "b", "Haus", "der"]), "--", "--", "--")
+
+    def cons(parent, depth):
+        kids = []
+        for _ in range(rng.randint(2, 4)):
+            if depth < 2 and rng.random() < 0.25:
+                kids.append(cons(rng.choice(["S", "VP", "PP"]), depth + 1))
+            else:
+                kids.append(leaf(rng.choice(_RULE_CATS[parent.lower()] + ["ZZ"])))
+        return mk_node(parent, kids, edge="--", lemma="--", morph="--")
+    return mk_node("VROOT", [cons(rng.choice(["S", "VP", "PP"]), 0)], edge="--", lemma="--", morph="--")
 
 
 def trace_tree(rng):
